@@ -6,9 +6,11 @@ Keeps the change under /verif/seeded/<CNN-x>/ with an augmented meta.json.  The 
 import json, os, shutil, subprocess, sys, tempfile
 
 name = sys.argv[1]
-src = f"/tmp/seed/out/{name}"
+src = os.path.join(os.environ.get("SEED_DIR", "/tmp/seed/out"), name)
 prop = name.split("-")[0]
 checks = sys.argv[2:] or [prop]
+# second wave (SEED_WAVE=2): a/b are stored as c/d
+dst_name = name if os.environ.get("SEED_WAVE", "1") == "1" else prop + "-" + {"a": "c", "b": "d"}[name.split("-")[1]]
 d = tempfile.mkdtemp(prefix="seedeval-", dir="/var/tmp")
 subprocess.run(["rsync", "-a", "--exclude", ".git", "--exclude", "__pycache__", "/repo/", d + "/"], check=True)
 env = dict(os.environ, PYTHONPATH=d, KCONFIG_REPORT_VERBOSITY="quiet")
@@ -36,10 +38,10 @@ shutil.rmtree(d, ignore_errors=True)
 shutil.rmtree("/var/tmp/mck-out-" + os.path.basename(d), ignore_errors=True)
 meta = json.load(open(f"{src}/meta.json")) if os.path.exists(f"{src}/meta.json") else {}
 meta["our_verification"] = res
-dst = f"/verif/seeded/{name}"
+dst = f"/verif/seeded/{dst_name}"
 os.makedirs(dst, exist_ok=True)
 for f in ("patch.diff", "demo.py"):
     shutil.copy(f"{src}/{f}", dst)
 json.dump(meta, open(f"{dst}/meta.json", "w"), indent=1)
 ok = res.get("demo_unpatched_exit") == 0 and res.get("demo_patched_exit") == 1 and res.get("baseline_passes_with_patch")
-print(name, "VALID" if ok else "INVALID", {c: v["verdict"] for c, v in res.get("checks", {}).items()}, "" if ok else res)
+print(dst_name, "VALID" if ok else "INVALID", {c: v["verdict"] for c, v in res.get("checks", {}).items()}, "" if ok else res)
